@@ -1,10 +1,13 @@
 #!/usr/bin/env python3
-"""Run every kept seeded change against the quick check of its property; write seeded/RESULTS.json.
+"""Run every kept seeded change against the quick check(s) of its property; write seeded/RESULTS.json.
+The change is applied in a scratch clone of /repo (TXDBUS_REPO points the checks at it), never in /repo.
 usage: run_seeds.py [name-prefix ...]"""
 import json
 import os
+import shutil
 import subprocess
 import sys
+import tempfile
 import time
 
 ROOT = '/verif'
@@ -13,32 +16,35 @@ if len(sys.argv) > 1:
     names = [n for n in names if any(n.startswith(p) for p in sys.argv[1:])]
 resf = ROOT + '/seeded/RESULTS.json'
 results = json.load(open(resf)) if os.path.exists(resf) else {}
-assert subprocess.run(['git', '-C', '/repo', 'diff', '--quiet']).returncode == 0, '/repo dirty'
-for n in names:
-    meta = json.load(open('%s/seeded/%s/meta.json' % (ROOT, n)))
-    pid = meta['property']
-    checks = meta.get('checks', [pid])
-    patch = '%s/seeded/%s/patch.diff' % (ROOT, n)
-    ok = subprocess.run(['git', '-C', '/repo', 'apply', patch]).returncode == 0 or \
-        subprocess.run(['git', '-C', '/repo', 'apply', '-3', patch]).returncode == 0
-    if not ok:
-        results[n] = dict(applied=False)
-        subprocess.run(['git', '-C', '/repo', 'reset', '-q', '--hard', 'HEAD'])
-        continue
-    try:
+scratch = tempfile.mkdtemp(prefix='txv-seedrepo-')
+clone = os.path.join(scratch, 'repo')
+subprocess.run(['git', 'clone', '-q', '/repo', clone], check=True)
+head = subprocess.run(['git', '-C', '/repo', 'rev-parse', '--short', 'HEAD'], stdout=subprocess.PIPE).stdout.decode().strip()
+env = dict(os.environ, TXDBUS_REPO=clone)
+try:
+    for n in names:
+        meta = json.load(open('%s/seeded/%s/meta.json' % (ROOT, n)))
+        pid = meta['property']
+        checks = meta.get('checks', [pid])
+        patch = '%s/seeded/%s/patch.diff' % (ROOT, n)
+        subprocess.run(['git', '-C', clone, 'reset', '-q', '--hard', 'HEAD'])
+        ok = subprocess.run(['git', '-C', clone, 'apply', patch], stderr=subprocess.DEVNULL).returncode == 0 or \
+            subprocess.run(['git', '-C', clone, 'apply', '-3', patch], stderr=subprocess.DEVNULL).returncode == 0
+        if not ok:
+            results[n] = dict(applied=False, repo_head=head)
+            continue
         r = {}
         for c in checks:
             t = time.time()
-            p = subprocess.run(['./check', c], cwd=ROOT, stdout=subprocess.PIPE, stderr=subprocess.STDOUT)
-            out = p.stdout.decode()
+            p = subprocess.run(['./check', c], cwd=ROOT, stdout=subprocess.PIPE, stderr=subprocess.DEVNULL, env=env)
+            out = p.stdout.decode('utf-8', 'replace')
             first = [l for l in out.split('\n') if l.startswith('VIOLATION')]
-            key = [l.strip() for l in out.split('\n') if l.startswith('  ')][:1]
+            key = [l.strip()[:300] for l in out.split('\n') if l.startswith('  ')][:1]
             r[c] = dict(exit=p.returncode, detected=p.returncode == 1 and bool(first), first_key=key,
                         wall_s=round(time.time() - t, 1))
-        results[n] = dict(applied=True, property=pid, checks=r,
+        results[n] = dict(applied=True, property=pid, checks=r, repo_head=head,
                           detected=any(v['detected'] for v in r.values()))
-    finally:
-        subprocess.run(['git', '-C', '/repo', 'reset', '-q', '--hard', 'HEAD'])
-    print(n, results[n].get('detected'),
-          {c: (v['exit'], v['first_key']) for c, v in results[n].get('checks', {}).items()})
-    json.dump(results, open(resf, 'w'), indent=1, sort_keys=True)
+        print(n, results[n].get('detected'), {c: (v['exit'], v['first_key']) for c, v in r.items()}, flush=True)
+        json.dump(results, open(resf, 'w'), indent=1, sort_keys=True)
+finally:
+    shutil.rmtree(scratch, ignore_errors=True)
